@@ -38,6 +38,10 @@ func c06Faults() []c06Fault {
 		{"bi-sin-arr", BI("sin", "[]"), ""}, {"bi-cos-bool", BI("cos", True()), ""}, {"bi-tan-obj", BI("tan", "obj"), ""},
 		{"bi-min-none", BI("min"), ""}, {"bi-max-empty", BI("max", "[]"), ""}, {"bi-min-str", BI("min", "1", `"x"`), ""}, {"bi-round-nil", BI("round", "nil"), ""},
 		{"bi-input-two", BI("input", `"a"`, `"b"`), ""}, {"bi-input-num", BI("input", "5"), ""}, {"bi-clock-arg", BI("clock", "1"), ""},
+		// faults whose diagnostic quotes program text or values containing a per-cent sign
+		{"prop-missing-mod-index", "objs[7 % 3].zz", ""}, {"prop-missing-mod-literal", "({k: 5 % 3}).zz", ""}, {"prop-missing-pct-text", `({k: "100%d %s"}).zz`, ""},
+		{"bi-delete-missing-pct", BI("delete", "obj", `"k%d%s%v"`), ""}, {"tm-neg-pct-str", `(-"50%")`, ""}, {"tm-not-pct-str", `(~"5%d")`, ""}, {"tm-pct-str-star", `("%s%n" * 2)`, ""},
+		{"bi-sqrt-pct-str", BI("sqrt", `"9%"`), ""}, {"bi-len-pct-str-mod", BI("len", "7 % 4"), ""}, {"idx-pct-str", `arr["%d"]`, ""},
 		// statement faults
 		{"redeclare", "", Var("dup", "2")}, {"redeclare-in-list", "", K["var"] + " fresh1 = 1, dup = 2;"}, {"redeclare-list-twice", "", K["var"] + " m1 = 1, m2 = 2; " + K["var"] + " m3 = 3, m1 = 4;"}, {"undefined-assign", "", "নেই = 1;"},
 		{"idxw-high", "", "arr[5] = 1;"}, {"idxw-str", "", `arr["x"] = 1;`}, {"idxw-neg", "", "arr[-1] = 1;"}, {"idxw-nonarray", "", "(5)[0] = 1;"},
@@ -50,6 +54,7 @@ func c06Prelude() []string {
 	return []string{
 		Var("arr", "[10, 20, 30]"),
 		Var("obj", "{k: 1, j: 2}"),
+		Var("objs", "[{k: 1}, {k: 2}, {k: 3}]"),
 		Var("dup", "1"),
 		Var("x", "0"),
 		Fun("fn0", "", " "+Ret("0")+" "),
